@@ -194,6 +194,24 @@ fn main() {
     for p in all.into_iter().take(corpus_max) {
         sources.push((p.file_name().unwrap().to_string_lossy().into_owned(), p));
     }
+    // regression source for the repaired hash-order defect (DESIGN 6.3): family, style and default
+    // instance all named "Regular" - before the fix 8 builds gave two different fonts
+    {
+        let mut des = Design::single("Regular", vec![GlyphSrc::new(".notdef", 500.0).rect(50., 0., 450., 700.), GlyphSrc::new("a", 600.0).uni(0x61).rect(10., 0., 300., 400.)]);
+        des.axes.push(AxisSrc { name: "Weight".into(), tag: "wght".into(), min: 400., default: 400., max: 700., ..Default::default() });
+        let mut m2 = des.masters[0].clone();
+        m2.name = "Bold".into();
+        m2.style = "Bold".into();
+        des.masters[0].location = vec![("Weight".into(), 400.)];
+        m2.location = vec![("Weight".into(), 700.)];
+        m2.glyphs[1].advance = 700.0;
+        des.masters.push(m2);
+        des.instances.push(InstanceSrc { family: "Regular".into(), style: "Regular".into(), postscript: None, location: vec![("Weight".into(), 400.)] });
+        des.instances.push(InstanceSrc { family: "Regular".into(), style: "Bold".into(), postscript: None, location: vec![("Weight".into(), 700.)] });
+        let d = scratch.path().join("regular-regular");
+        let p = des.write(&d);
+        sources.push(("fixed-regular-regular".to_string(), p));
+    }
     for k in 0..n_gen {
         let des = generated(&mut rng, k);
         let d = scratch.path().join(format!("gen{k}"));
